@@ -380,7 +380,8 @@ Lemma make_cookie_inv validate r line : make_cookie validate r = Ok line ->
   /\ mc_samesite validate r = Ok (r_samesite r)
   /\ morsel_serialize (mc_morsel r (value_octets r) (r_samesite r)) = Ok line.
 Proof.
-  unfold make_cookie. destruct (is_ascii (r_name r)) eqn:Ea; cbn [negb]; [|discriminate].
+  unfold make_cookie. destruct (mc_bad_max_age r); [discriminate|].
+  destruct (is_ascii (r_name r)) eqn:Ea; cbn [negb]; [|discriminate].
   destruct (mc_value r) as [vb|e] eqn:Ev; [|discriminate].
   assert (Hvb : vb = value_octets r).
   { unfold mc_value, value_octets in *. destruct (r_value r) as [|b|t]; try (injection Ev as <-; reflexivity).
@@ -496,7 +497,7 @@ Qed.
 
 Theorem rejects_non_token validate r : rfc_token (r_name r) = false -> exists e, make_cookie validate r = Raise e.
 Proof.
-  intros Hn. unfold make_cookie.
+  intros Hn. unfold make_cookie. destruct (mc_bad_max_age r); [eexists; reflexivity|].
   destruct (is_ascii (r_name r)); cbn [negb]; [|eexists; reflexivity].
   destruct (mc_value r); [|eexists; reflexivity].
   unfold valid_cookie_name_res.
@@ -524,12 +525,15 @@ Qed.
 Theorem rejects_bad_samesite r s : r_samesite r = Some s -> samesite_legal s = false ->
   exists e, make_cookie true r = Raise e.
 Proof.
-  intros Hs Hl. unfold make_cookie.
+  intros Hs Hl. unfold make_cookie. destruct (mc_bad_max_age r); [eexists; reflexivity|].
   destruct (is_ascii (r_name r)); cbn [negb]; [|eexists; reflexivity].
   destruct (mc_value r); [|eexists; reflexivity].
   destruct (valid_cookie_name_res (r_name r)) as [[|]|]; try (eexists; reflexivity).
   unfold mc_samesite. rewrite Hs, samesite_ok_legal, Hl. eexists. reflexivity.
 Qed.
+
+Theorem rejects_bad_max_age validate r : mc_bad_max_age r = true -> make_cookie validate r = Raise ValueError.
+Proof. intros Hb. unfold make_cookie. rewrite Hb. reflexivity. Qed.
 
 Lemma is_none_nonempty s : is_none s = true -> exists c t, s = c :: t.
 Proof. destruct s as [|c t]; [discriminate|]. intros _. exists c, t. reflexivity. Qed.
@@ -537,7 +541,7 @@ Proof. destruct s as [|c t]; [discriminate|]. intros _. exists c, t. reflexivity
 Theorem rejects_none_without_secure validate r s : r_samesite r = Some s -> is_none s = true -> r_secure r = false ->
   exists e, make_cookie validate r = Raise e.
 Proof.
-  intros Hs Hn Hsec. unfold make_cookie.
+  intros Hs Hn Hsec. unfold make_cookie. destruct (mc_bad_max_age r); [eexists; reflexivity|].
   destruct (is_ascii (r_name r)); cbn [negb]; [|eexists; reflexivity].
   destruct (mc_value r); [|eexists; reflexivity].
   destruct (valid_cookie_name_res (r_name r)) as [[|]|]; try (eexists; reflexivity).
@@ -571,6 +575,7 @@ Proof.
 Qed.
 
 Theorem make_cookie_accepts validate r :
+  mc_bad_max_age r = false ->
   name_accepted (r_name r) = true ->
   (forall t, r_value r = CText t -> is_ascii t = true) ->
   req_octets r -> plain (r_date r) = true ->
@@ -578,9 +583,9 @@ Theorem make_cookie_accepts validate r :
      plain s = true /\ (validate = true -> samesite_legal s = true) /\ (is_none s = true -> r_secure r = true)) ->
   exists line, make_cookie validate r = Ok line.
 Proof.
-  intros Hn Hv Hro Hdate Hss.
+  intros Hma Hn Hv Hro Hdate Hss.
   destruct (name_accepted_valid _ Hn) as [Hres Hasc].
-  unfold make_cookie. rewrite Hasc. cbn [negb].
+  unfold make_cookie. rewrite Hma, Hasc. cbn [negb].
   assert (Hmv : mc_value r = Ok (value_octets r)).
   { unfold mc_value, value_octets. destruct (r_value r) as [|b|t] eqn:Ev; try reflexivity. rewrite (Hv t eq_refl). reflexivity. }
   rewrite Hmv, Hres.
